@@ -45,7 +45,7 @@ from ..world.observers import Recorder, RecordingBackend
 from .collect_on import replace_inner
 
 NAME = "train"
-PROPS = {"C10", "C11", "C19"}
+PROPS = {"C10", "C11", "C19", "C02"}
 
 
 class InjectedBackendError(RuntimeError):
@@ -246,14 +246,23 @@ class CtorPurityRunner:
             # non-default arguments, derived from the signature: every option whose default is None and which the built object
             # holds as a dict / tuple / array under the same name gets a modified COPY of that value
             overrides = {}
+            import dataclasses
+
+            fields = [f.name for f in dataclasses.fields(first)] if dataclasses.is_dataclass(first) else []
             for pname, par in inspect.signature(ctor.__init__).parameters.items():
-                if pname == "self" or par.default is not None or not hasattr(first, pname):
+                if pname == "self" or par.default is not None:
                     continue
-                cur = getattr(first, pname)
+                cur = getattr(first, pname, None)
                 if isinstance(cur, dict) and cur:
                     k = sorted(cur, key=str)[op["pick"] % len(cur)]
                     v = cur[k]
                     overrides[pname] = {k: (0.0 if isinstance(v, (int, float)) and v != 0.0 else 1.5)}
+                elif "dict" in str(par.annotation) and "_" in pname:
+                    # a dict-valued option that is unpacked into fields `<stem>_<key>` (e.g. reward_weights -> reward_alive, ...)
+                    stem = pname.split("_")[0] + "_"
+                    keys = sorted(f[len(stem):] for f in fields if f.startswith(stem) and f != pname)
+                    if keys:
+                        overrides[pname] = {keys[op["pick"] % len(keys)]: 1.5}
             try:
                 other = ctor(**overrides)
             except Exception as exc:  # noqa: BLE001
@@ -266,12 +275,14 @@ class CtorPurityRunner:
             if overrides:
                 res.faults["F.other_object_built_with_overrides"] += 1
             del other
-            if config_digest(first) != d0:
-                res.fail("C11", "environment_is_its_own", "existing_environment_changed_by_building_another_one", env=op["env"], overrides=sorted(overrides))
-            elif config_digest(again) != d0:
-                res.fail("C11", "environment_is_its_own", "default_construction_depends_on_what_was_built_before", env=op["env"], overrides=sorted(overrides))
-            else:
-                res.ok("C11", "environment_is_its_own")
+            for P in sorted(set(props or {"C11", "C02"}) & {"C11", "C02"}):
+                # C11: training is a function of the environment passed in; C02: signals do not depend on Python-side state
+                if config_digest(first) != d0:
+                    res.fail(P, "environment_is_its_own", "existing_environment_changed_by_building_another_one", env=op["env"], overrides=sorted(overrides))
+                elif config_digest(again) != d0:
+                    res.fail(P, "environment_is_its_own", "default_construction_depends_on_what_was_built_before", env=op["env"], overrides=sorted(overrides))
+                else:
+                    res.ok(P, "environment_is_its_own")
         return res
 
 
